@@ -282,6 +282,11 @@ func (a StringDict) M__eq__(other Object) (Object, error) {
 	if !ok {
 		return NotImplemented, nil
 	}
+	id := reflect.ValueOf(a).Pointer()
+	if err := compareEnter(id); err != nil {
+		return nil, err
+	}
+	defer compareLeave(id)
 	if len(a) != len(b) {
 		return False, nil
 	}
